@@ -123,7 +123,7 @@ def lit_int(v):
 
 def clone_val(v):
     k = v.kind
-    if k in ("bv", "bool", "opaque", "str", "ref", "vacant"):
+    if k in ("bv", "bool", "opaque", "str", "ref", "vacant", "box"):
         return v
     if k in ("struct", "enum"):
         n = Val(k, **{a: b for a, b in v.__dict__.items() if a not in ("kind", "fields")})
@@ -175,6 +175,25 @@ def eq_expr(a, b):
         cs = [eq_expr(x, y) for x, y in zip(a.fields, b.fields)]
         cs = [c for c in cs if c != "true"]
         return "true" if not cs else "(and true %s)" % " ".join(cs)
+    if a.kind == "str" and b.kind == "str":
+        return "true" if a.text == b.text else "false"
+    if a.kind == "bytes" and b.kind == "bytes":
+        if len(a.chunks) != len(b.chunks):
+            return "false"
+        cs = ["(= %s %s)" % (x[0], y[0]) for x, y in zip(a.chunks, b.chunks) if x[0] != y[0]]
+        return "true" if not cs else "(and true %s)" % " ".join(cs)
+    if a.kind == "vec" and b.kind == "vec":
+        if len(a.items) != len(b.items):
+            return "false"
+        cs = [eq_expr(x, y) for x, y in zip(a.items, b.items)]
+        if "false" in cs:
+            return "false"
+        cs = [c for c in cs if c != "true"]
+        return "true" if not cs else "(and true %s)" % " ".join(cs)
+    if a.kind == "map" and b.kind == "map":
+        raise Unsupported("equality of maps")
+    if a.kind != b.kind:
+        return "false"
     raise Unsupported("equality of %s and %s" % (a.kind, b.kind))
 
 
@@ -216,6 +235,10 @@ def parse_place(s):
     raise Unsupported("place " + s)
 
 
+class BoxCell(list):
+    """storage behind Box::new_uninit(): every wrapper projection under it (MaybeUninit/ManuallyDrop/...) is transparent"""
+
+
 class Frame:
     def __init__(self, fn):
         self.fn = fn
@@ -234,6 +257,8 @@ class Interp:
         self.assumptions_used = set()
         self.calls_seen = {}
         self.clock_w = 64
+        self.enums = {}          # user enums: name -> {variant: discriminant}
+        self.user_stubs = []     # [(regex, fn(interp, callee, args) -> Val)]
         self.reset([])
 
     # ------------------------------------------------------------------ path management
@@ -341,6 +366,9 @@ class Interp:
         for k, (v, ty) in self.consts.items():
             if k.split("::")[-1] == s.split("::")[-1] and s.split("::")[-1].replace("_", "").isupper():
                 return BV(WIDTH[ty], bv(WIDTH[ty], v))
+        m = re.match(r'^"(.*)"$', s)
+        if m:
+            return Val("str", text=m.group(1))
         m = re.match(r"^ZeroSized: (\{closure@.*\})$", s)
         if m:
             return Val("struct", name=m.group(1), fields=[])
@@ -357,12 +385,16 @@ class Interp:
         if k == "deref":
             lst, i = self.lv(place[1], fr)
             r = lst[i]
+            if r is not None and r.kind == "box":
+                return r.cell, 0
             if r is None or r.kind != "ref":
                 raise Unsupported("deref of %r" % (r,))
             return r.lst, r.idx
         if k == "field":
             lst, i = self.lv(place[1], fr)
             v = lst[i]
+            if isinstance(lst, BoxCell) or (v is not None and v.kind == "box"):
+                return lst, i
             if v is None or v.kind not in ("struct", "enum"):
                 raise Unsupported("field %d of %r" % (place[2], v))
             if place[2] >= len(v.fields):
@@ -418,6 +450,9 @@ class Interp:
             if w < a.w:
                 return self.fold(BV(w, "((_ extract %d 0) %s)" % (w - 1, a.s)))
             return self.fold(BV(w, "((_ zero_extend %d) %s)" % (w - a.w, a.s)))
+        m = re.match(r"^(.*) as .* \((Transmute|PtrToPtr|PointerCoercion\(.*\))\)$", rhs)
+        if m:
+            return self.operand(m.group(1), fr)
         m = re.match(r"^discriminant\((.*)\)$", rhs)
         if m:
             v = self.read(parse_place(m.group(1)), fr)
@@ -446,6 +481,9 @@ class Interp:
         if m and m.group(2) in KNOWN_ENUMS and m.group(3) in KNOWN_ENUMS[m.group(2)]:
             flds = [self.operand(x, fr) for x in split_top(m.group(4))] if m.group(4) else []
             return mk_enum(m.group(2), m.group(3), KNOWN_ENUMS[m.group(2)][m.group(3)], flds)
+        if m and m.group(2) in self.enums and m.group(3) in self.enums[m.group(2)]:
+            flds = [self.operand(x, fr) for x in split_top(m.group(4))] if m.group(4) else []
+            return mk_enum(m.group(2), m.group(3), self.enums[m.group(2)][m.group(3)], flds)
         m = re.match(r"^((?:\w+::)*\w+) \{ (.*) \}$", rhs)
         if m:
             return Val("struct", name=m.group(1), fields=[self.operand(p.split(":", 1)[1], fr) for p in split_top(m.group(2))])
@@ -629,6 +667,52 @@ class Interp:
 
     def stub(self, c, a):
         D = self.deref
+        for rx, f in self.user_stubs:
+            if re.search(rx, c):
+                return f(self, c, a)
+        if re.search(r"^Box::<\[.*\]>::new_uninit$|^std::boxed::Box::<\[.*\]>::new_uninit$", c):
+            return Val("box", cell=BoxCell([None]))
+        if re.search(r"box_assume_init_into_vec_unsafe", c):
+            v = a[0].cell[0]
+            if v is None or v.kind != "vec":
+                raise Unsupported("vec from an uninitialised box")
+            return v
+        if re.search(r"BTreeMap::<.*>::new$", c):
+            return Val("map", entries=[])
+        if re.search(r"BTreeMap::<.*>::insert$", c):
+            self.assumptions_used.add("BTreeMap modelled as an association list: two keys are the same key iff structurally equal (no Integer/Float or "
+                                      "other cross-type Ord-equal keys in the harness)")
+            mp = D(a[0])
+            j = self.lookup(mp, a[1], "BTreeMap::insert")
+            if j is None:
+                mp.entries.append([a[1], a[2]])
+                return NONE()
+            old = mp.entries[j][1]
+            mp.entries[j][1] = a[2]
+            return SOME(old)
+        if re.search(r"BTreeMap::<.*>::(get|get_mut)::<", c):
+            mp = D(a[0])
+            j = self.lookup(mp, a[1], "BTreeMap::get")
+            return NONE() if j is None else SOME(Val("ref", lst=mp.entries[j], idx=1))
+        if re.search(r"BTreeMap::<.*>::len$", c):
+            return BV(64, bv(64, len(D(a[0]).entries)))
+        if re.search(r"BTreeMap::<.*>::iter$", c):
+            mp = D(a[0])
+            self.assumptions_used.add("map iteration order is the insertion order of the model (the laws compare contents as sets)")
+            return Val("iter", items=[Val("struct", name="(tuple)", fields=[Val("ref", lst=e, idx=0), Val("ref", lst=e, idx=1)]) for e in mp.entries],
+                       pos=[0], sub=None)
+        if re.search(r" as Iterator>::map::<", c):
+            return Val("mapiter", inner=a[0], closure=a[1])
+        if re.search(r"^<std::iter::Map<.*> as Iterator>::collect::<(std::vec::)?Vec<", c) or (re.search(r" as Iterator>::collect::<(std::vec::)?Vec<", c) and a[0].kind == "mapiter"):
+            mi = a[0]
+            it = mi.inner
+            out = []
+            f = self.closure_fn(mi.closure)
+            while it.pos[0] < len(it.items):
+                x = it.items[it.pos[0]]
+                it.pos[0] += 1
+                out.append(self.call_fn(f, [Val("ref", lst=[mi.closure], idx=0), x]))
+            return Val("vec", items=out)
         # ---- logging / formatting / clock: no semantic effect (assumption listed in the evidence)
         if re.search(r"<Level as PartialOrd<LevelFilter>>::le$", c):
             self.assumptions_used.add("tracing is disabled (every `trace!` guard `Level <= LevelFilter` is false)")
